@@ -147,9 +147,16 @@ class URI(object):
         return self.protocol, self.object, self.sockname, self.host, self.port
 
     def __setstate__(self, state):
-        self.protocol, self.object, self.sockname, self.host, self.port = state
-        if self.protocol == "PYROMETA" and type(self.object) in (list, tuple, frozenset):
-            self.object = set(self.object)    # some serializers turn the tag set into a list
+        protocol, obj, sockname, host, port = state
+        if protocol == "PYROMETA" and type(obj) in (list, tuple, frozenset):
+            obj = set(obj)    # some serializers turn the tag set into a list
+        tags = obj if type(obj) is set else ()
+        if not (isinstance(protocol, str) and (isinstance(obj, str) or type(obj) is set) and all(isinstance(tag, str) for tag in tags)
+                and (sockname is None or isinstance(sockname, str)) and (host is None or isinstance(host, str))
+                and (port is None or isinstance(port, int))):
+            # (a state comes from the wire: a member that is an object of its own would be looked into by everything that prints the uri)
+            raise TypeError("invalid uri state")
+        self.protocol, self.object, self.sockname, self.host, self.port = protocol, obj, sockname, host, port
 
 
 class _ExceptionWrapper(object):
